@@ -13,6 +13,7 @@ class C11(C10):
     prop = "C11"
     label = "c11"
     pool = "c11"
+    want_imported = staticmethod(lambda sd: any(e["inverse"] for e in sd["entities"]) and not any(iv.get("redecl") for e in sd["entities"] for iv in e["inverse"]))
     n_generated = {"quick": 6, "thorough": 24}
     with_inverse = True
     feature_overrides = {"renamed_select": False, "renamed_enum": False, "optional_elems": False, "inverse": True}
